@@ -5707,6 +5707,8 @@ class CodegenCtx:
                         # Also allocate the data if not included
                         if self._is_dynamic(out_expr):
                             contents.add(f"state->c.{out_expr.name} = malloc({self._generate_buflike_length_expr(out_expr)});")
+                        if len(out_expr.default_value) > out_expr.effective_string_size():
+                            raise IllegalDFAStateError("Default value is too long for output", out_expr)
                         contents.add(self._generate_set_string(out_expr.default_value, out_expr))
                     else:
                         contents.add(f"state->c.{out_expr.name} = {self._generate_code_for_int_expr(out_expr.default_value, IntegerExprUseContext.ASSIGN_INITIAL, out_expr)};")
